@@ -38,6 +38,7 @@ type refFunc struct {
 	Locals []refField `json:"locals,omitempty"` // named address-taken locals (of the function and its literals), in order
 	Names  []string   `json:"names,omitempty"`  // every name declared inside the function (parameters, results, locals)
 	Wrap   *refWrap   `json:"wrap,omitempty"`   // set when the function only forwards to one other call
+	PNames []string   `json:"pnames,omitempty"` // parameter names, receiver first
 }
 
 // refWrap describes a function whose whole body is `return callee(args...)`: args are "$k" (parameter k of the
@@ -262,7 +263,7 @@ func buildInventory(P *Program) *refInventory {
 		} else if f.Object() != nil && f.Object().Pkg() != nil {
 			pkg = f.Object().Pkg().Path()
 		}
-		inv.Funcs[f.String()] = refFunc{Pkg: pkg, Recv: recvTypeName(f), Name: f.Name(), Sig: sigString(f), Flat: flatSigString(f), Tokens: funcTokens(f), Locals: namedLocals(f, nil), Names: declaredNames(f), Wrap: wrapperOf(f)}
+		inv.Funcs[f.String()] = refFunc{Pkg: pkg, Recv: recvTypeName(f), Name: f.Name(), Sig: sigString(f), Flat: flatSigString(f), Tokens: funcTokens(f), Locals: namedLocals(f, nil), Names: declaredNames(f), Wrap: wrapperOf(f), PNames: paramNames(f)}
 	}
 	for _, p := range P.SSA.AllPackages() {
 		if !strings.HasPrefix(p.Pkg.Path(), modPath) {
@@ -532,6 +533,20 @@ func loadRenames(P *Program, path string) {
 					at = j
 				}
 			}
+			// a type that occurs more than once on both sides: the parameter's name says which one it is
+			if at >= 0 && count(rp, ct) > 1 && count(rp, ct) == count(cp, ct) && i < len(cf.PNames) {
+				byName := -1
+				for j, rt := range rp {
+					if rt == ct && j < len(rf.PNames) && rf.PNames[j] == cf.PNames[i] && rf.PNames[j] != "" && rf.PNames[j] != "_" {
+						byName = j
+					}
+				}
+				if byName >= 0 && !used[byName] {
+					perm[i] = byName
+					used[byName] = true
+					continue
+				}
+			}
 			switch {
 			case at >= 0 && count(rp, ct) == 1 && count(cp, ct) == 1:
 				perm[i] = at
@@ -583,10 +598,16 @@ func loadRenames(P *Program, path string) {
 			sameShape := recv == rf.Recv && mapTypes(cf.Sig) == rf.Sig
 			// a function turned into a method (or back): same name, same flat signature
 			converted := cf.Name == rf.Name && rf.Flat != "" && mapTypes(cf.Flat) == rf.Flat && recv != rf.Recv
-			if !sameShape && !converted {
+			// ... or turned into a method (or back) and renamed at the same time: same flat signature, and the
+			// body must then speak for it (a higher similarity is asked for below)
+			convertedRenamed := cf.Name != rf.Name && rf.Flat != "" && mapTypes(cf.Flat) == rf.Flat && recv != rf.Recv
+			if !sameShape && !converted && !convertedRenamed {
 				continue
 			}
 			sc := jaccard(rf.Tokens, cf.Tokens)
+			if convertedRenamed && sc < 0.7 {
+				continue
+			}
 			if cf.Name == rf.Name && sameShape {
 				sc = 1 // same method name on a renamed type
 			}
@@ -1096,4 +1117,13 @@ func isNewType(named *types.Named) bool {
 	}
 	_, aliased := curRenames.typeNew2Old[key]
 	return !aliased
+}
+
+// paramNames: the names of f's parameters, receiver first.
+func paramNames(f *ssa.Function) []string {
+	var out []string
+	for _, p := range f.Params {
+		out = append(out, p.Name())
+	}
+	return out
 }
